@@ -52,6 +52,7 @@ var OpaqueTags = []string{
 	"map[interface{}]interface{}", "[]map[string]interface{}", "*interface{}", "nil*interface{}", "nilmap", "nilslice",
 	"namedFloat", "namedString", "namedBool", "json.RawMessage",
 	"Accessor{}", "map[string]float64", "raw-number", "raw-array", "*[]interface{}", "*map",
+	"anon-struct", "[]anon-struct", "map-of-*anon-struct",
 }
 
 // WrapTags are opaque values that hold a document of their own: a pointer to it, an Accessor
@@ -111,11 +112,13 @@ func rawable(v interface{}) interface{} {
 }
 
 var (
-	opMapFloat = map[string]float64{"a": 1, "b": 2}
-	opRawNum   = json.RawMessage(`1`)
-	opRawArr   = json.RawMessage(`[1,{"a":1}]`)
-	opSliceVal = []interface{}{1.0, map[string]interface{}{"a": 1.0}}
-	opMapVal   = map[string]interface{}{"a": 1.0, "b": map[string]interface{}{"a": 2.0}}
+	opAnonSlice = []struct{ X, Y int }{{1, 2}}
+	opAnonMap   = map[string]*struct{ Name string }{"a": {Name: "n"}}
+	opMapFloat  = map[string]float64{"a": 1, "b": 2}
+	opRawNum    = json.RawMessage(`1`)
+	opRawArr    = json.RawMessage(`[1,{"a":1}]`)
+	opSliceVal  = []interface{}{1.0, map[string]interface{}{"a": 1.0}}
+	opMapVal    = map[string]interface{}{"a": 1.0, "b": map[string]interface{}{"a": 2.0}}
 )
 
 // OpaqueValue builds the Go value for a tag.
@@ -183,6 +186,12 @@ func OpaqueValue(tag string) interface{} {
 		return namedBool(true)
 	case "json.RawMessage":
 		return opRaw
+	case "anon-struct":
+		return struct{ X, Y int }{1, 2}
+	case "[]anon-struct":
+		return opAnonSlice
+	case "map-of-*anon-struct":
+		return opAnonMap
 	case "Accessor{}":
 		return jsonpath.Accessor{}
 	case "map[string]float64":
